@@ -28,6 +28,23 @@ class R:
         self.pat, self.repl, self.n, self.flags = pat, repl, n, flags
 
 
+def V(pat, repl, flags=0):
+    """Vocabulary rule: a pure token translation (member -> field, accessor call -> value,
+    enum constant -> macro).  May fire any number of times: if the code changes so that it no
+    longer fires, the untranslated C++ text is caught by the residual scan or by goto-cc (exit 2),
+    and if it fires more often the changed code is still extracted and judged by its contract."""
+    return R(pat, repl, None, flags)
+
+
+class RB:
+    """Block rule: `pat` must match exactly once; the brace block that starts at the first `{`
+    at or after the end of the match is replaced by `repl` (the matched header is kept).
+    Used to outline a loop body that is extracted as its own unit."""
+
+    def __init__(self, pat, repl, flags=0):
+        self.pat, self.repl, self.flags = pat, repl, flags
+
+
 class Unit:
     def __init__(self, name, file, anchor, sig, rules=(), contract="", loops=None,
                  inner=None, pre="", defs="", undefs=True, keep_asserts=True,
@@ -154,6 +171,14 @@ LOOP_RE = re.compile(r"\b(for|while|do)\b")
 
 
 def _apply(text, rule, unit_name):
+    if isinstance(rule, RB):
+        ms = list(re.finditer(rule.pat, text, rule.flags | re.M))
+        if len(ms) != 1:
+            raise ExtractionError("unit %s: block rule %r matched %d times, expected 1" % (unit_name, rule.pat, len(ms)))
+        ob = text.index("{", ms[0].end() - 1 if text[ms[0].end() - 1] == "{" else ms[0].end())
+        cb = match_brace(text, ob)
+        keep_nl = "\n" * text.count("\n", ob, cb + 1)
+        return text[:ob] + rule.repl + keep_nl + text[cb + 1:]
     rx = re.compile(rule.pat, rule.flags | re.M)
     text2, k = rx.subn(rule.repl, text)
     if rule.n is not None and k != rule.n:
@@ -206,6 +231,38 @@ def find_loops(body):
     return res
 
 
+def loop_end(body, loop):
+    """textual end position of a loop statement (used to derive cbmc's loop numbering,
+    which follows the order of the back edges, i.e. of the loop ends)"""
+    kind, start, ins = loop
+    if kind == "do":
+        j = ins
+        while body[j].isspace():
+            j += 1
+        close = match_brace(body, j)
+        p = body.index("(", close)
+        return match_brace(body, p, "(", ")")
+    j = ins
+    while body[j].isspace():
+        j += 1
+    if body[j] == "{":
+        return match_brace(body, j)
+    # single statement body: may itself be a loop / if; find the terminating ';' at depth 0
+    depth = 0
+    while j < len(body):
+        c = body[j]
+        if c in "({":
+            depth += 1
+        elif c in ")}":
+            depth -= 1
+            if depth == 0 and c == "}":
+                return j
+        elif c == ";" and depth == 0:
+            return j
+        j += 1
+    raise ExtractionError("cannot find end of loop statement")
+
+
 def extract(unit, repo=None):
     """Return dict(text=C text of the function, sha=sha256 of the raw C++ body,
     file=..., line_start=..., line_end=...)."""
@@ -255,6 +312,9 @@ def extract(unit, repo=None):
     # splice loop contracts (ordinal-keyed), from the last to the first so that
     # positions stay valid
     loops = find_loops(body)
+    ends = [loop_end(body, l) for l in loops]
+    order = sorted(range(len(loops)), key=lambda k: ends[k])
+    cbmc_index = {k: order.index(k) for k in range(len(loops))}
     for k in unit.loops:
         if k >= len(loops):
             raise ExtractionError("unit %s: loop contract for loop %d but only %d loops" %
@@ -285,4 +345,4 @@ def extract(unit, repo=None):
     if unit.post:
         text.append(unit.post.rstrip() + "\n")
     return dict(text="".join(text), sha=sha, file=unit.file, line_start=line_start,
-                line_end=line_end, n_loops=len(loops), name=unit.name)
+                line_end=line_end, n_loops=len(loops), name=unit.name, cbmc_loop_index=cbmc_index)
